@@ -92,8 +92,14 @@
 (define-fun requestAcc () Bytes (modAddr strlit_requestAcc))
 ; deposit recorded under a key (0 unless the key is a binding key holding a binding)
 (define-fun depAt ((k Key) (v Bytes) (d Str)) Int (ite (and (is-KBind k) (not (= v bnil))) (amt (ServiceBinding_Deposit (dec_ServiceBinding v)) d) 0))
-(declare-fun sumDep ((Array Key Bytes) Str) Int)
-(assert (forall ((r (Array Key Bytes)) (k Key) (v Bytes) (d Str)) (! (= (sumDep (store r k v) d) (+ (- (sumDep r d) (depAt k (select r k) d)) (depAt k v d))) :pattern ((sumDep (store r k v) d)))))
+; the sum depends only on the binding records: sumDep(r) = sumDepV(bindView(r)), bindView(r) = r restricted to binding keys
+(declare-fun bindView ((Array Key Bytes)) (Array Key Bytes))
+(assert (forall ((r (Array Key Bytes)) (k Key)) (! (= (select (bindView r) k) (ite (is-KBind k) (select r k) bnil)) :pattern ((select (bindView r) k)))))
+(declare-fun sumDepV ((Array Key Bytes) Str) Int)
+(define-fun sumDep ((r (Array Key Bytes)) (d Str)) Int (sumDepV (bindView r) d))
+(assert (forall ((r (Array Key Bytes)) (k Key) (v Bytes) (d Str)) (! (= (sumDep (store r k v) d) (+ (- (sumDep r d) (depAt k (select r k) d)) (depAt k v d))) :pattern ((sumDepV (bindView (store r k v)) d)))))
+; two stores with different sums have different binding views (creates the equality atom so that array extensionality applies)
+(assert (forall ((r1 (Array Key Bytes)) (r2 (Array Key Bytes)) (d Str)) (! (=> (= (bindView r1) (bindView r2)) (= (sumDepV (bindView r1) d) (sumDepV (bindView r2) d))) :pattern ((sumDepV (bindView r1) d) (sumDepV (bindView r2) d)))))
 ; I_dep (property C03): the deposit account holds exactly the recorded deposits
 (define-fun depInv ((r (Array Key Bytes)) (b (Array Bytes (Array Str Int)))) Bool
   (forall ((d Str)) (! (= (select (select b depositAcc) d) (sumDep r d)) :pattern ((select (select b depositAcc) d)) :pattern ((sumDep r d)))))
@@ -197,3 +203,9 @@
 (define-fun cleanedKey ((old (Array Key Bytes)) (id Bytes) (b Int) (k Key)) Bool
   (or (and (is-KReq k) (inPfx k (PReqByCtx id b)))
       (and (is-KResp k) (not (= (select old (KReq (kresp_rid k))) bnil)) (inPfx (KReq (kresp_rid k)) (PReqByCtx id b)))))
+
+; I_orphan (part): every pending marker has its request, context and binding, names its own request, and its consumer is an ordinary account
+(define-fun actOK ((r (Array Key Bytes)) (rid Bytes)) Bool
+  (=> (isActive r rid) (and (requestFound r rid) (bindFound r (reqSvc r rid) (reqProv r rid)) (ordinary (reqConsumer r rid))
+        (= (BytesValue_Value (dec_BytesValue (select r (KActID rid)))) rid))))
+(define-fun actInv ((r (Array Key Bytes))) Bool (forall ((rid Bytes)) (! (actOK r rid) :pattern ((select r (KActID rid))))))
